@@ -9,7 +9,8 @@
 (*      the entity &foo;) | "json" | "html" | "txtjson" (JSON in a .txt      *)
 (*      file) | "noext" | "dangling" (unreadable: dangling symlink, .xml)    *)
 (* Flags: a m n r : BOOLEAN, t : "" | "xml" | "json" | "html", e : BOOLEAN   *)
-(*      (-e foo=bar), q : "ns" | "empty" | "num" (the kind of query given)   *)
+(*      (-e foo=bar), u : BOOLEAN (-u: non-strict XML decoding),             *)
+(*      q : "ns" | "empty" | "num" (the kind of query given)                 *)
 (* For every file the specification yields                                  *)
 (*   [visit |-> walked at all, parse |-> "xml"|"json"|"html"|"none",         *)
 (*    diag |-> a diagnostic on stderr is owed, records |-> "none" |          *)
@@ -31,8 +32,8 @@ Parses(fl, cls, pt) ==
   CASE cls = "dangling" -> "no"
     [] pt = "none" -> "no"
     [] cls = "xml" -> IF pt = "xml" THEN "yes" ELSE "unk"
-    [] cls = "xmlbad" -> IF pt = "xml" THEN "no" ELSE "unk"
-    [] cls = "xmlent" -> IF pt = "xml" THEN (IF fl.e THEN "yes" ELSE "no") ELSE "unk"
+    [] cls = "xmlbad" -> IF pt = "xml" THEN (IF fl.u THEN "unk" ELSE "no") ELSE "unk"      \* what a lenient decoder makes of it is not specified
+    [] cls = "xmlent" -> IF pt = "xml" THEN (IF fl.e \/ fl.u THEN "yes" ELSE "no") ELSE "unk" \* lenient: the reference stays literal unless -e binds it
     [] cls \in {"json", "txtjson"} -> IF pt = "json" THEN "yes" ELSE "unk"
     [] cls = "html" -> IF pt = "html" THEN "yes" ELSE "unk"
     [] OTHER -> "unk"
